@@ -88,6 +88,16 @@
 ; @needs mtf seqfront
 (assert (forall ((s GSeq) (x Int)) (! (=> (member s x) (= (seqfront (mtf s x)) x)) :pattern ((mtf s x)))))
 
+; @axiom seq-remove-front
+; @needs seqremove seqfront
+(assert (forall ((s GSeq) (x Int)) (! (=> (and (member s x) (not (= x (seqfront s)))) (= (seqfront (seqremove s x)) (seqfront s))) :pattern ((seqfront (seqremove s x))))))
+; @axiom seq-front-back-single
+; @needs seqfront seqback
+(assert (forall ((s GSeq)) (! (=> (= (seqfront s) (seqback s)) (<= (seqlen s) 1)) :pattern ((seqfront s) (seqback s)))))
+; @axiom sum-single
+; @needs sum4k seqlen member
+(assert (forall ((s GSeq) (x Int) (A (Array Int Int))) (! (=> (and (= (seqlen s) 1) (member s x)) (= (sum4k s A) (r4kc (select A (sub.cache.disk.entry.value x))))) :pattern ((sum4k s A) (member s x)))))
+
 ; eviction order: dropped(t, s) iff t is s with some elements removed from the back, one at a time
 ; @axiom seq-dropped-refl
 ; @needs dropped
